@@ -279,3 +279,10 @@ class Opaque:
 
     def __repr__(self):
         return '<opaque %s>' % self.name
+
+
+class Computed:
+    """attribute of an Opaque whose value is computed at every read: fn(interp, obj) -> value"""
+
+    def __init__(self, fn):
+        self.fn = fn
